@@ -125,6 +125,28 @@ func c19CodesFact(repo string) (string, any, error) {
 		for k, v := range c19CodesIgnoredFuncs {
 			allow[k] = v
 		}
+		if pkgs[dir].evaluated {
+			// unexported functions of the handled files are helpers of an evaluated naming function (see
+			// c19FamilyByEvaluation): covered by its answers on the whole domain
+			for _, fn := range fl {
+				for _, d := range pkgs[dir].files[fn].Decls {
+					if fd, ok := d.(*ast.FuncDecl); ok && !fd.Name.IsExported() {
+						allow[fn+":"+funcKey(pkgs[dir], fd)] = "helper of an evaluated naming function"
+					}
+					if g, ok := d.(*ast.GenDecl); ok && g.Tok == token.VAR {
+						for _, sp := range g.Specs {
+							unexported := true
+							for _, id := range sp.(*ast.ValueSpec).Names {
+								unexported = unexported && !id.IsExported()
+							}
+							if _, done := pkgs[dir].claimed[sp]; !done && unexported {
+								pkgs[dir].claimed[sp] = "helper of an evaluated naming function"
+							}
+						}
+					}
+				}
+			}
+		}
 		if err := pkgs[dir].leftovers(fl, allow, true); err != nil {
 			return "", nil, err
 		}
@@ -252,11 +274,44 @@ func c19CodeTable(p *c19pkg, cfg codeCfg) (*C19CodeTable, error) {
 			t.Rows = append(t.Rows, C19CodeRow{Key: e.keySrc, Value: e.key, Name: name, Pos: p.pos(e.node)})
 		}
 		if err := c19LookupFunc(p, fd, recv, cfg, t); err != nil {
-			return nil, err
+			// Translation by evaluation (c19_eval.go): the rows stay the entries of the name map read above;
+			// what the function does with them (wrapping of a found name, fall-back text) is read off its
+			// answers on the WHOLE 8/16-bit domain and the finished table is verified on every value.
+			_, ptr := fd.Recv.List[0].Type.(*ast.StarExpr)
+			sig := fd.Type.Params.NumFields() == 0 && fd.Type.Results.NumFields() == 1 && p.src(fd.Type.Results.List[0].Type) == "string"
+			if t.Bits > 16 || ptr || !sig || !fd.Name.IsExported() {
+				return nil, err
+			}
+			what := fmt.Sprintf("%s.%s (%s)", cfg.goType, cfg.fn, t.File)
+			ans, eerr := c19Evaluate(p.repo, cfg.dir, t.Bits, []evalReq{{ID: "f", Kind: "string", Type: cfg.goType, Method: cfg.fn}})
+			if eerr == nil {
+				eerr = c19SynthLookup(t, ans["f"].Strings, what)
+			}
+			if eerr != nil {
+				return nil, fmt.Errorf("%s\n  no shape the syntactic reader knows:\n    %s", eerr, err)
+			}
+			p.evaluated = true
 		}
 	case "switch", "assign":
 		if err := c19SwitchFunc(p, fd, recv, cfg, t); err != nil {
-			return nil, err
+			// Translation by evaluation (c19_eval.go) of a `String() string` over an 8/16-bit code kept in the field
+			// `Value` of a struct: there is no name map to take the rows from, so the rows ARE the answers — every value
+			// whose answer is not the fall-back rendering is a row (ascending), which reproduces the method on the
+			// whole domain by construction.
+			sig := fd.Type.Params.NumFields() == 0 && fd.Type.Results.NumFields() == 1 && p.src(fd.Type.Results.List[0].Type) == "string"
+			if cfg.shape != "switch" || t.Bits > 16 || !sig || !fd.Name.IsExported() || (cfg.subject != ".Value" && cfg.subject != "") {
+				return nil, err
+			}
+			t.Rows, t.Fallback, t.WrapPre, t.WrapPost = nil, C19Fallback{}, "", ""
+			what := fmt.Sprintf("%s.%s (%s)", cfg.goType, cfg.fn, t.File)
+			ans, eerr := c19Evaluate(p.repo, cfg.dir, t.Bits, []evalReq{{ID: "f", Kind: "string", Type: cfg.goType, Method: cfg.fn, Struct: cfg.subject == ".Value"}})
+			if eerr == nil {
+				eerr = c19SynthRows(t, ans["f"].Strings, what)
+			}
+			if eerr != nil {
+				return nil, fmt.Errorf("%s\n  no shape the syntactic reader knows:\n    %s", eerr, err)
+			}
+			p.evaluated = true
 		}
 	default:
 		return nil, fmt.Errorf("unknown shape %s", cfg.shape)
